@@ -7,7 +7,7 @@ from nauyaca.client.session import GeminiClient
 from nauyaca.protocol.response import GeminiResponse
 from nauyaca.utils.url import parse_url
 
-from vf import Ob, V, pick
+from vf import Ob, V, internal, pick
 from vf.stubs import drive
 
 N = pick(4, 5)
@@ -69,6 +69,7 @@ def graph(nxt: List[int], maxr: int, follow: bool) -> bool:
             return GeminiResponse(30 + (i % 2), URLS[k], None, wire)
         return GeminiResponse(30, SPECIAL[k - N], None, wire)
 
+    internal(c, "_get_single")            # the seam this obligation replaces
     c._get_single = single
     # ---- reference walk (the property, written independently) --------------------------
     expect = None            # ("final", i) | ("error",) | ("either", i)
